@@ -40,6 +40,10 @@ func (s *segmentTimelineGenerator) addSegmentData(log *slog.Logger, item recSegD
 	trName := item.name
 	if _, ok := s.segDataBuffers[trName]; !ok {
 		s.segDataBuffers[trName] = newSegDataBuffer(s.windowSize)
+		if s._started {
+			// a track that delivers its first segment after start must be waited for as well
+			s._nrTracks = uint32(len(s.segDataBuffers))
+		}
 	}
 	err = s.segDataBuffers[trName].add(item)
 	if err != nil {
@@ -173,6 +177,18 @@ func (sg *segmentTimelineGenerator) modifySegmentTemplate(as *mpd.AdaptationSetT
 		}
 	}
 	stl.S = append(stl.S, s)
+	// every other representation of the adaptation set must have the listed segments as well
+	for _, otherRep := range as.Representations[1:] {
+		osdb, ok := sg.segDataBuffers[otherRep.Id]
+		if !ok {
+			return fmt.Errorf("no segment data buffer for representation %s", otherRep.Id)
+		}
+		for seqNr := firstNr; seqNr <= lastNr; seqNr++ {
+			if _, ok := osdb.getItem(seqNr); !ok {
+				return fmt.Errorf("no segment data for representation %s seqNr %d", otherRep.Id, seqNr)
+			}
+		}
+	}
 	return nil
 }
 
